@@ -291,7 +291,7 @@ def probe(p):
         rec.update(status='undecided', message='replay/probe build failed: ' + log)
         return rec
     try:
-        r = subprocess.run('ulimit -s 8192; exec %s probe %s' % (exe, ' '.join(p['args'])), shell=True, stdout=subprocess.PIPE, stderr=subprocess.STDOUT,
+        r = subprocess.run('ulimit -s 8192; RUST_BACKTRACE=0 exec %s probe %s' % (exe, ' '.join(p['args'])), shell=True, stdout=subprocess.PIPE, stderr=subprocess.STDOUT,
                            timeout=p.get('timeout', 600))
     except subprocess.TimeoutExpired:
         rec.update(status='undecided', message='probe timed out')
@@ -301,8 +301,9 @@ def probe(p):
     rec['wall_s'] = time.time() - t0
     if r.returncode == 0:
         rec.update(status='discharged', message='')
-    elif r.returncode == 1 or r.returncode < 0 or r.returncode >= 128:
-        why = 'process killed by signal %d' % (-r.returncode if r.returncode < 0 else r.returncode - 128) if r.returncode != 1 else 'probe reported failure'
+    elif r.returncode == 1 or r.returncode < 0 or r.returncode >= 128 or (r.returncode == 101 and re.search(r'panicked at (?!.*replay/src/main\.rs)', r.stdout.decode('utf-8', 'replace'))):
+        # exit status 101: a Rust panic that is not one of the probe's own -- the decoder panicked on the probe's input
+        why = ('the code under test PANICKED: ' + (re.search(r'panicked at [^\n]*\n[^\n]*', r.stdout.decode('utf-8', 'replace')) or re.search(r'panicked', 'panicked')).group(0).replace('\n', ' ')[:200]) if r.returncode == 101 else ('process killed by signal %d' % (-r.returncode if r.returncode < 0 else r.returncode - 128) if r.returncode != 1 else 'probe reported failure')
         rec.update(status='failed', message='%s: %s' % (why, out.strip().split('\n')[-1][:300]),
                    counterexample='probe %s' % ' '.join(p['args']),
                    replay=dict(fails_on_real_code=True, input_hex='(generated by the probe: %s)' % ' '.join(p['args']), cmd=rec['cmd'], outcome=out.strip()[-400:]))
